@@ -610,6 +610,9 @@ class Txt:
         if len(t.p) == 1 and isinstance(t.p[0], Fld):
             x = t.p[0]
             if x.kind() in ("int", "any") and is_rat(x.v):
+                if not x.v.d.is_const():
+                    # a true quotient a / b prints as a float ("3.4782608695652173"): int() of that text raises
+                    return Bad(f"int() of the text of {x.v!r}, a quotient that is not an integer in general")
                 return x.v
             return Bad(f"int() of the non-integer field {x!r}")
         if any(isinstance(x, Fld) and x.kind() not in ("int", "any") for x in t.p) or any(isinstance(x, Lit) and x.s.strip("0123456789 ") for x in t.p):
